@@ -84,7 +84,7 @@ func interp(toks []string) string {
 // genC12: exact map with one offset per key (Get) and with block offsets (RangeGet).
 func genC12(c *lp.Ctx) {
 	n := c.Pick(300, 3000)
-	size := c.Pick(60, 300)
+	size := c.Pick(250, 1500)
 	for it := 0; it < n; it++ {
 		ks := gen.Any(c.Rng, size)
 		block := it%2 == 1
